@@ -156,17 +156,43 @@ class Interp:
         s.fns, s.consts, s.maxdepth = fns, consts, maxdepth
         s.results = []
         s.visited = set()   # every function whose MIR was symbolically executed
+    @staticmethod
+    def generic_arg(callee):
+        i = callee.rfind('::<')
+        if i < 0: return ''
+        depth = 0; j = i + 2
+        while j < len(callee):
+            if callee[j] == '<': depth += 1
+            elif callee[j] == '>' and callee[j-1] != '-':
+                depth -= 1
+                if depth == 0: return callee[i+3:j]
+            j += 1
+        return ''
+
     def const_value(s, name):
+        """evaluate a crate constant from its own MIR body (straight-line bodies only)"""
         body = s.consts.get(name)
-        if body is None: raise Unsupported(f'const {name} not found in the MIR dump')
-        txt = ' '.join(body)
-        m = re.search(r'_0 = const (.+?) as usize \(IntToInt\)', txt)
+        if body is None:
+            # associated / nested constants are printed with generic arguments in uses: match on the last segments
+            tail = re.sub(r'::<[^>]*>', '', name)
+            c = [k for k in s.consts if re.sub(r'::<[^>]*>', '', k).endswith(tail.split('::', 1)[-1]) or k.split('::')[-1] == name.split('::')[-1]]
+            if len(c) != 1: raise Unsupported(f'const {name} not found (or ambiguous) in the MIR dump')
+            body = s.consts[c[0]]
         known = {'core::num::<impl isize>::MAX': (1 << 63) - 1, 'core::num::<impl usize>::MAX': (1 << 64) - 1,
                  'core::num::<impl i32>::MAX': (1 << 31) - 1, 'core::num::<impl u32>::MAX': (1 << 32) - 1}
-        if m and m.group(1) in known: return known[m.group(1)]
-        m = re.search(r'_0 = const (\d+)_usize', txt)
-        if m: return int(m.group(1))
-        raise Unsupported(f'const {name}: body form not understood: {txt[:120]}')
+        st = State(); fr = ('C', name)
+        for ln in body:
+            ln = ln.rstrip(';')
+            m = re.match(r'^(_\d+) = (.*)$', ln)
+            if not m: continue
+            rhs = m.group(2)
+            mk = re.match(r'^const (.+?) as usize \(IntToInt\)$', rhs)
+            if mk and mk.group(1) in known: v = BitVecVal(known[mk.group(1)], 64)
+            else: v = s.eval_rvalue(st, fr, None, rhs)
+            st.mem[('L', fr, int(m.group(1)[1:]))] = v
+        v = st.mem.get(('L', fr, 0))
+        if v is None or not is_bv(v): raise Unsupported(f'const {name}: body form not understood: {" ".join(body)[:120]}')
+        return simplify(v).as_long()
     # ---- function resolution
     def find(s, method, selfhead=None, nargs=None, closure=None):
         cands = []
@@ -215,6 +241,10 @@ class Interp:
             if not c and len(parts) == 1: c = [f for f in s.fns if f.name == meth]
             if len(c) == 1: return ('local', c[0])
             if len(c) > 1: raise Unsupported(f'ambiguous callee {callee}: ' + ', '.join(f.name for f in c))
+        if head:
+            c = [f for f in s.fns if f.name.split('::')[-1] == meth and len(f.params) == nargs
+                 and (head in f.name or (f.params and head in f.params[0][1]))]
+            if len(c) == 1: return ('local', c[0])
         return ('extern', bare)
 
     # ---- evaluation
@@ -247,6 +277,8 @@ class Interp:
                 t = c.split(': ', 1)[1]
                 return Opaque('closure:' + t) if t.startswith('{closure') else Opaque('zst')
             if c in ('arc::MAX_REFCOUNT', 'MAX_REFCOUNT'): return BitVecVal(s.const_value('MAX_REFCOUNT'), 64)
+            if re.match(r'^[A-Za-z_][\w:<>, ]*::[A-Z][A-Z0-9_]*$', c) and not c.startswith(('core::', 'std::', 'alloc::')):
+                return BitVecVal(s.const_value(c), 64)      # other crate constants: evaluated from their MIR body
             return Opaque('const:' + c)
         # function item operand (e.g. unique_arc::UniqueArc::<T>::into_inner)
         return FnItem(op)
@@ -264,7 +296,9 @@ class Interp:
             a, b = [s.eval_operand(st, fr, x) for x in split_top(m.group(2))]
             return BINOPS[m.group(1)](a, b)
         if m and m.group(1) == 'Not':
-            a = s.eval_operand(st, fr, m.group(2)); return (not a) if isinstance(a, bool) else Not(a)
+            a = s.eval_operand(st, fr, m.group(2))
+            if isinstance(a, bool): return not a
+            return ~a if is_bv(a) else Not(a)
         if m and m.group(1) == 'discriminant':
             pl, _ = parse_place(m.group(2)); v = st.load(s.eval_place(st, fr, pl))
             return ('discr', v.variant)
@@ -297,7 +331,7 @@ class Interp:
             return s.call_fn(st, fn, [ptr], depth, lambda st2, r: cont(st2))
         if ty.startswith('unique_arc::UniqueArc<'):
             return s.drop_value(st, 'arc::Arc<T>', Ptr(ptr.root, ptr.path + (0,)), depth, cont)
-        if ty.startswith('std::boxed::Box<arc::ArcInner<'):
+        if re.match(r'^(std::boxed::)?Box<arc::ArcInner<', ty):
             b = st.load(ptr)
             data = st.load(Ptr(b.root, b.path + (1,)))
             if not (isinstance(data, Opaque) and data.what == 'moved-out'): st.ev(kind='DESTROY', loc=('data', b.root[1]))
@@ -341,12 +375,27 @@ class Interp:
             b = st.load(args[0]); st.ev(kind='FREE', loc=('blk', b.root[1])); return cont(st, Opaque('unit'))
         if n.endswith('process::abort') or n == 'abort': st.ev(kind='ABORT'); raise PathEnd('abort')
         if n.endswith('mem::forget'): return cont(st, Opaque('unit'))
+        if n.endswith('mem::drop'):
+            ty = s.generic_arg(getattr(s, '_raw_callee', ''))
+            st.nheap += 1; root = ('T', st.nheap); st.mem[root] = args[0]
+            return s.drop_value(st, ty, Ptr(root), 0, lambda st2: cont(st2, Opaque('unit')))
+        if re.search(r'(mut_ptr|const_ptr)::(cast|cast_mut|cast_const)$', n): return cont(st, args[0])
+        if n.endswith('Layout::new') or n.endswith('Layout::for_value'): return cont(st, Opaque('layout'))
+        if n.endswith('alloc::dealloc'):
+            p0 = args[0]
+            if isinstance(p0, Ptr) and p0.root[0] == 'H': st.ev(kind='FREE', loc=('blk', p0.root[1]))
+            return cont(st, Opaque('unit'))
         if n.endswith('mem::replace'):
             old = copy.deepcopy(st.load(args[0])); st.store(args[0], args[1]); return cont(st, old)
         if n.endswith('mem::swap'):
             a, b = copy.deepcopy(st.load(args[0])), copy.deepcopy(st.load(args[1])); st.store(args[0], b); st.store(args[1], a); return cont(st, Opaque('unit'))
-        if n.endswith('ptr::read'): return cont(st, copy.deepcopy(st.load(args[0])))
-        if n.endswith('ptr::write'):
+        if n.endswith('ptr::read') or re.search(r'(mut_ptr|const_ptr)::read$', n):
+            v = copy.deepcopy(st.load(args[0]))
+            p0 = args[0]
+            if isinstance(v, Opaque) and v.what == 'payload' and isinstance(p0, Ptr) and p0.root[0] == 'H':
+                st.ev(kind='Rna', loc=('data', p0.root[1]), note='move-out'); st.store(p0, MOVED)
+            return cont(st, v)
+        if n.endswith('ptr::write') or re.search(r'mut_ptr::write$', n):
             st.store(args[0], args[1]); return cont(st, Opaque('unit'))
         if re.search(r'mem::(size_of|align_of|size_of_val|align_of_val)$', n): return cont(st, st.fresh('layout'))  # unknown property of the payload type
         if n == 'Result::map':
@@ -396,7 +445,11 @@ class Interp:
         m = re.match(r'^switchInt\((.*)\) -> \[(.*)\]$', t)
         if m:
             v = s.eval_operand(st, fr, m.group(1)); arms = [a.split(': ') for a in split_top(m.group(2))]
-            if isinstance(v, tuple) and v[0] == 'discr': raise Unsupported('switch on discr (prototype)')
+            if isinstance(v, tuple) and v[0] == 'discr':
+                idx = {'None': 0, 'Some': 1, 'Ok': 0, 'Err': 1}.get(v[1])
+                if idx is None: raise Unsupported(f'switch on discriminant of {v[1]}')
+                d = dict(arms)
+                return s.run_block(st, fn, fr, d.get(str(idx), d.get('otherwise')), depth, cont)
             if isinstance(v, bool) or (is_bool(v) and (is_true(simplify(v)) or is_false(simplify(v)))):
                 b = v if isinstance(v, bool) else is_true(simplify(v))
                 tgt = [bbx for val, bbx in arms if (val == 'otherwise') or (val == '0') == (not b)]
@@ -441,6 +494,7 @@ class Interp:
             kind, *tgt = s.resolve(callee, len(args))
             if kind == 'local': return s.call_fn(st, tgt[0], args, depth + 1, after)
             if kind == 'generic': return s.call_generic(st, tgt[0], tgt[1], args, after)
+            s._raw_callee = callee
             return s.call_extern(st, tgt[0], args, after, fn)
         raise Unsupported(f"terminator {t!r} in {fn.name}")
 
